@@ -248,6 +248,16 @@ func genC05(c *ctx) {
 		b.do(sym.Op{Kind: "OVerify", S: last, K: keyRoot, Slots: f.discharges})
 		// wrong key: rejected
 		b.do(sym.Op{Kind: "OVerify", S: last, K: keyRoot2, Slots: f.discharges, Tr: f.trust()})
+		if b.r.P(1, 6) {
+			// one Add call carrying two third-party caveats for one location (refused as a whole), then one for a location
+			// the token already has
+			t2 := b.slot()
+			b.do(sym.Op{Kind: "OClone", Dst: t2, Src: last})
+			b.do(sym.Op{Kind: "OAdd", S: t2, Adds: []sym.ACav{{Is3P: true, EncKey: keyTP2, Loc: 7}, {D: sym.DOf(12)}, {Is3P: true, EncKey: keyTP2, Loc: 7}}})
+			b.do(sym.Op{Kind: "OVerify", S: t2, K: keyRoot, Slots: f.discharges, Tr: f.trust()})
+			b.do(sym.Op{Kind: "OAdd", S: t2, Adds: []sym.ACav{{D: sym.DOf(13)}, {Is3P: true, EncKey: keyTP2, Loc: 1}}})
+			b.do(sym.Op{Kind: "OVerify", S: t2, K: keyRoot, Slots: f.discharges, Tr: f.trust()})
+		}
 		b.emit(st, fmt.Sprintf("honest/%d3p-%dsteps-v%d", o.n3p, o.steps, f.ver), true, oracle)
 	}
 	// any number of attenuation steps by holders working only from the encoded token: a chain well past every internal
